@@ -20,7 +20,12 @@ prop("C07", "exploration",
      "the REAL hopSession (newSession -> checkAuthorization -> start -> tube dispatch) behind a real transport handshake on the "
      "simulated UDP network with real tube muxers; generated grant sets (user, delegate key, shell / command / local PF / remote PF, "
      "windows around the clock) and request sequences by the harness-played delegate (exec with command text variants, exec with the "
-     "shell flag, local and remote port-forward requests, grant issuing for itself, clock steps); every answer the server gives is compared with "
+     "shell flag, local and remote port-forward requests, grant issuing for itself, port-forward DATA tubes (reliable or unreliable, "
+     "written to; after a refused control request, after a granted one, or without any), clock steps between requests AND between opening "
+     "the tubes of a request and sending its body (0 / 12 / 40 s, so that a grant expires or becomes effective in between: the model judges "
+     "at the moment the body is sent); the forwarding target is a unix socket of the harness, one per case, whose accepted connections are "
+     "counted synchronously after every request: the server may connect to it only once a local forwarding was authorized in this session "
+     "(a local port-forward request that matched an effective, unused grant was confirmed); every answer the server gives is compared with "
      "the same multiset model (login admitted iff a grant for exactly this user and key is stored; an action confirmed iff an unused, "
      "effective, unexpired grant of the session matches it; each grant at most once). Non-trivial = history containing a request on an admitted session that must be refused (different text, repeat, "
      "expired, not yet effective, other kind, nothing left) or a connect that must be refused because the grant names another "
@@ -32,7 +37,12 @@ prop("C07", "exploration",
       "are dispatched by hopSession.start into the portforwarding package and are reachable only at layer 2, where local "
       "and remote port-forward control requests are driven (local: towards a unix socket of the harness; remote: a listen address "
       "in a directory that does not exist, so the server answers the request - the authorization decision - and then gives up "
-      "listening; forwarded data is not exercised)",
+      "listening); the forwarded service closes every connection at once, so proxying of payload is not exercised - what is observed is "
+      "whether the server connects to it",
+      "a port forwarding is ONE action: the grant is judged (and consumed) when the control request is made; data tubes opened afterwards are "
+      "carried by that forwarding and are not judged against the grant's window again (only: no authorized forwarding => no connection to the target)",
+      "an action is requested when its request message (exec-init / port-forward control message) is sent, not when the tubes that carry it "
+      "are opened; requests sent within one second of a grant boundary are not judged",
       "no grant type authorizes issuing further grants, hence a grant-admitted session must never obtain a confirmation",
       "a shell grant is taken to cover every exec request that sets the shell flag, whatever command text it carries",
       "grants are stored with AddAuthGrant directly, as hoptests does; no authorized_keys files exist, so every admission is by grant"],
